@@ -95,10 +95,7 @@ def main():
         u = []
         # products of limbs are kept as applications of an opaque function in the body query (Z3's nonlinear engine stays out of
         # the straight-line code); the wrappers are verified calls of the real leaf functions, nothing is assumed
-        u.append("""#[verifier::opaque]
-pub open spec fn prod(x: nat, y: nat) -> nat { x * y }
-pub proof fn lemma_prod(x: nat, y: nat) ensures prod(x, y) == x * y { reveal(prod); }
-fn mac_o(a: u64, b: u64, c: u64, carry: &mut u64) -> (r: u64)
+        u.append("""fn mac_o(a: u64, b: u64, c: u64, carry: &mut u64) -> (r: u64)
     ensures r as nat + (*final(carry)) as nat * B() == a as nat + prod(b as nat, c as nat)
 { proof { lemma_prod(b as nat, c as nat); } mac(a, b, c, carry) }
 fn mac_discard_o(a: u64, b: u64, c: u64, carry: &mut u64)
@@ -228,10 +225,176 @@ fn mac_with_carry_o(a: u64, b: u64, c: u64, carry: &mut u64) -> (r: u64)
         u.append('    proof { val_bound(a.0.0@, %d); }' % n)
         u.append('//@end')
         return "\n".join(u)
+
+    OPAQUE_PRELUDE = """fn mac_o(a: u64, b: u64, c: u64, carry: &mut u64) -> (r: u64)
+    ensures r as nat + (*final(carry)) as nat * B() == a as nat + prod(b as nat, c as nat)
+{ proof { lemma_prod(b as nat, c as nat); } mac(a, b, c, carry) }
+fn mac_discard_o(a: u64, b: u64, c: u64, carry: &mut u64)
+    ensures (*final(carry)) as nat == (a as nat + prod(b as nat, c as nat)) / B()
+{ proof { lemma_prod(b as nat, c as nat); } mac_discard(a, b, c, carry) }
+fn mac_with_carry_o(a: u64, b: u64, c: u64, carry: &mut u64) -> (r: u64)
+    ensures r as nat + (*final(carry)) as nat * B() == a as nat + prod(b as nat, c as nat) + (*old(carry)) as nat
+{ proof { lemma_prod(b as nat, c as nat); } mac_with_carry(a, b, c, carry) }
+//@clearpaths
+//@path fa::mac_with_carry => mac_with_carry_o
+//@path fa::mac_discard => mac_discard_o
+//@path fa::mac => mac_o
+//@path fa => 
+//@path Self::INV => Cfg::INV
+//@path ark_ff::biginteger::arithmetic => crate"""
+
+    def mul_unit_scratch_replay(fn):
+        """2N-limb schoolbook product followed by Montgomery reduction, fully unrolled by the generator: the loop proof of
+        Fp::mul_without_cond_subtract (contracts/c01_mont.vxb) replayed per unrolled step with literal indices."""
+        PN = "%dnat" % modulus; RN = "%dnat" % R
+        n2 = 2 * n
+        u = [OPAQUE_PRELUDE]
+        hi_list = ", ".join("scratch[%d]" % (n + i) for i in range(n))
+        u.append('//@unit name=derive::%s file=%s sel="impl MontConfig / %s" rename=derive_%s' % (fn, gen_rs, fn, fn))
+        u.append('//@subst (a.0).0 = scratch[%dusize..].try_into().unwrap(); => (a.0).0 = [%s];' % (n, hi_list))
+        u.append('//@spec')
+        u.append('    requires val(old(a).0.0@, %d) < %s, val(b.0.0@, %d) < %s,' % (n, PN, n, PN))
+        u.append('    ensures val(final(a).0.0@, %d) < %s, mont_rel(val(final(a).0.0@, %d), val(old(a).0.0@, %d) * val(b.0.0@, %d), %s, %s),' % (n, PN, n, n, n, PN, RN))
+        u.append('//@at fn.begin')
+        u.append('    let ghost av = a.0.0@; let ghost bv = b.0.0@; let ghost pv = Cfg::MODULUS.0@;')
+        u.append('    let ghost A = val(av, %d); let ghost Bv = val(bv, %d); let ghost PP = val(pv, %d);' % (n, n, n))
+        u.append('    let ghost X = (A * Bv) as int; let ghost P_ = PP as int;')
+        u.append('    let ghost mut m: int = 0; let ghost mut c0: Seq<u64> = Seq::empty(); let ghost mut cprev: Seq<u64> = Seq::empty(); let ghost mut cc: int = 0;')
+        u.append('    proof { lemma_cfg_wf(); val_bound(pv, %d); val_bound(bv, %d); val_bound(av, %d); bpow_pos(%d);' % (n, n, n, n))
+        for j in range(n):
+            u.append('        assert(pv[%d] == %du64);' % (j, pl[j]))
+        u.append('    }')
+        u.append('//@at after["let mut scratch = [0u64; %dusize];"]' % n2)
+        u.append('    proof { val_zero(scratch@, %d); assert(val(av, 0) * Bv == 0) by(nonlinear_arith) requires val(av, 0) == 0; cprev_row = scratch@; %s }' % (n2, ' '.join('assert(scratch@[%d] == 0);' % q for q in range(n2))))
+        # ---------------- phase 1
+        for i in range(n):
+            for j in range(n):
+                k = i + j
+                stmt = "scratch[%dusize] = fa::mac_with_carry(scratch[%dusize], (a.0).0[%dusize], (b.0).0[%dusize], &mut carry);" % (k, k, i, j)
+                u.append('//@at after["%s"]' % stmt)
+                u.append('    proof {')
+                if j == 0:
+                    u.append('        // row %d starts: c0 is the buffer before the row, carry was 0' % i)
+                    u.append('        c0 = cprev_row;')
+                    u.append('        cprev = cprev_row; cc = 0;')
+                u.append('        let ai = av[%d] as int;' % i)
+                if j == 0:
+                    u.append('        assert(ai * (val(bv, 0) as int) * (bpow(%d) as int) == 0) by(nonlinear_arith) requires val(bv, 0) == 0;' % i)
+                    u.append('        assert(cc * (bpow(%d) as int) == 0) by(nonlinear_arith) requires cc == 0;' % k)
+                u.append('        lemma_acc_step(cprev, scratch@, %d, %d, cc, carry as int, av[%d] as nat, bv[%d] as nat, val(c0, %d) as int, val(bv, %d) as int, %d, %d, 0);' % (k, n2, i, j, n2, j, i, j))
+                u.append('        assert(val(scratch@, %d) as int + carry as int * (bpow(%d) as int) == val(c0, %d) as int + ai * (val(bv, %d) as int) * (bpow(%d) as int));' % (n2, k + 1, n2, j + 1, i))
+                for pp in range(n + i, n2):
+                    u.append('        assert(scratch@[%d] == 0);' % pp)
+                u.append('        cprev = scratch@; cc = carry as int;')
+                u.append('    }')
+            u.append('//@at after["scratch[%dusize + %dusize] = carry;"]' % (i, n))
+            u.append('    proof {')
+            u.append('        assert(val(scratch@, %d) == val(av, %d) * Bv) by {' % (n2, i + 1))
+            u.append('            assert(cprev[%d] == 0);' % (n + i))
+            u.append('            assert(scratch@ =~= cprev.update(%d, scratch@[%d]));' % (n + i, n + i))
+            u.append('            val_update(cprev, %d, scratch@[%d], %d);' % (n + i, n + i, n2))
+            u.append('            bpow_add(%d, %d);' % (i, n))
+            u.append('            let bi = bpow(%d) as int; let ai = av[%d] as int;' % (i, i))
+            u.append('            assert(val(av, %d) == val(av, %d) + av[%d] as nat * bpow(%d));' % (i + 1, i, i, i))
+            u.append('            assert((val(av, %d) as int + ai * bi) * (Bv as int) == val(av, %d) as int * (Bv as int) + ai * (Bv as int) * bi) by(nonlinear_arith);' % (i, i))
+            u.append('        }')
+            for pp in range(n + i + 1, n2):
+                u.append('        assert(scratch@[%d] == 0);' % pp)
+            u.append('        cprev_row = scratch@;')
+            u.append('    }')
+        # ---------------- phase 2
+        u.append('//@at after["let mut carry2 = 0u64;"]')
+        u.append('    proof {')
+        u.append('        assert(m * P_ == 0) by(nonlinear_arith) requires m == 0;')
+        u.append('        assert(carry2 as int * (bpow(%d) as int) == 0) by(nonlinear_arith) requires carry2 == 0;' % n)
+        u.append('        assert(val(scratch@, 0) == 0);')
+        u.append('        assert(val(scratch@, %d) as int - val(scratch@, 0) as int + carry2 as int * (bpow(%d) as int) == X + m * P_);' % (n2, n))
+        u.append('    }')
+        for i in range(n):
+            u.append('//@at after["fa::mac(scratch[%dusize], tmp, %du64, &mut carry);"]' % (i, pl[0]))
+            u.append('    proof {')
+            u.append('        c0 = scratch@; cprev = scratch@; cc = carry as int; c2in = carry2 as int; tq = tmp as int;')
+            u.append('        assert(val(scratch@, %d) == val(c0, %d));' % (i + 1, i + 1))
+            u.append('        let li = scratch@[%d];' % i)
+            u.append('        assert(val(scratch@, %d) as int - val(c0, %d) as int + cc * (bpow(%d) as int) == val(c0, %d) as int - val(c0, %d) as int + tq * (val(pv, 1) as int) * (bpow(%d) as int)) by {' % (n2, i + 1, i + 1, n2, i, i))
+            u.append('            lemma_prod(tmp as nat, pv[0] as nat);')
+            u.append('            lemma_wrapping_mul(li, Cfg::INV);')
+            u.append('            lemma_k(li as nat, Cfg::INV as nat, pv[0] as nat, tmp as nat);')
+            u.append('            reveal_with_fuel(val, 2); reveal_with_fuel(bpow, 2);')
+            u.append('            assert(val(pv, 1) == pv[0] as nat * bpow(0));')
+            u.append('            assert(bpow(%d) == B() * bpow(%d));' % (i + 1, i))
+            u.append('            assert(val(c0, %d) == val(c0, %d) + c0[%d] as nat * bpow(%d));' % (i + 1, i, i, i))
+            u.append('            // the discarded low word is zero: li + tmp * p0 = carry * B')
+            u.append('            let lowv = (li as nat + tmp as nat * pv[0] as nat) % B();')
+            u.append('            assert(lowv == 0);')
+            u.append('            assert(cc * ((B() as int) * (bpow(%d) as int)) - (li as int) * (bpow(%d) as int) == tq * (pv[0] as int * 1) * (bpow(%d) as int)) by(nonlinear_arith)' % (i, i, i))
+            u.append('                requires li as int + tq * (pv[0] as int) == cc * (B() as int);')
+            u.append('        }')
+            u.append('    }')
+            for j in range(1, n):
+                k = i + j
+                stmt = "scratch[%dusize] = fa::mac_with_carry(scratch[%dusize], tmp, %du64, &mut carry);" % (k, k, pl[j])
+                # equal modulus limbs make this text occur for several (i, j) with the same i + j: address the occurrence
+                total = sum(1 for ii in range(n) for jj in range(1, n) if ii + jj == k and pl[jj] == pl[j])
+                occ = sum(1 for ii in range(n) for jj in range(1, n) if ii + jj == k and pl[jj] == pl[j] and (ii, jj) <= (i, j))
+                u.append('//@at after["%s"]%s' % (stmt, "#%d" % occ if total > 1 else ""))
+                u.append('    proof {')
+                u.append('        lemma_acc_step(cprev, scratch@, %d, %d, cc, carry as int, tmp as nat, pv[%d] as nat, val(c0, %d) as int - val(c0, %d) as int, val(pv, %d) as int, %d, %d, val(c0, %d) as int);' % (k, n2, j, n2, i, j, i, j, i + 1))
+                u.append('        assert(val(scratch@, %d) as int - val(c0, %d) as int + carry as int * (bpow(%d) as int) == val(c0, %d) as int - val(c0, %d) as int + tq * (val(pv, %d) as int) * (bpow(%d) as int));' % (n2, i + 1, k + 1, n2, i, j + 1, i))
+                u.append('        assert(val(scratch@, %d) == val(c0, %d)) by { val_frame(scratch@, cprev, %d); }' % (i + 1, i + 1, i + 1))
+                u.append('        cprev = scratch@; cc = carry as int;')
+                u.append('    }')
+            u.append('//@at after["carry2 = fa::adc(&mut scratch[%dusize + %dusize], carry, carry2);"]' % (i, n))
+            u.append('    proof {')
+            u.append('        let m2 = m + tq * (bpow(%d) as int);' % i)
+            u.append('        assert(carry2 <= 1 && 0 <= m2 < bpow(%d) && val(scratch@, %d) as int - val(scratch@, %d) as int + carry2 as int * (bpow(%d) as int) == X + m2 * P_) by {' % (i + 1, n2, i + 1, n + i + 1))
+            u.append('            let pos = %d; let nw = scratch@[%d]; let oldh = cprev[%d];' % (n + i, n + i, n + i))
+            u.append('            assert(scratch@ =~= cprev.update(pos, nw));')
+            u.append('            val_update(cprev, %d, nw, %d);' % (n + i, n2))
+            u.append('            assert(val(cprev, %d) == val(c0, %d));' % (i + 1, i + 1))
+            u.append('            val_frame(scratch@, cprev, %d);' % (i + 1))
+            u.append('            bpow_add(%d, %d);' % (n, i))
+            u.append('            assert(bpow(%d) == B() * bpow(%d));' % (n + i + 1, n + i))
+            u.append('            assert(bpow(%d) == B() * bpow(%d));' % (i + 1, i))
+            u.append('            let bp = bpow(%d) as int; let bi = bpow(%d) as int;' % (n + i, i))
+            u.append('            assert(nw as int * bp + carry2 as int * ((B() as int) * bp) == (oldh as int + cc + c2in) * bp) by(nonlinear_arith)')
+            u.append('                requires nw as int + carry2 as int * (B() as int) == oldh as int + cc + c2in;')
+            u.append('            assert((oldh as int + cc + c2in) * bp == oldh as int * bp + cc * bp + c2in * bp) by(nonlinear_arith);')
+            u.append('            assert(m2 * P_ == m * P_ + tq * P_ * bi) by(nonlinear_arith) requires m2 == m + tq * bi;')
+            u.append('            assert(0 <= m2 < (B() as int) * bi) by(nonlinear_arith) requires 0 <= m < bi, 0 <= tq < B() as int, m2 == m + tq * bi;')
+            u.append('        }')
+            u.append('        m = m2;')
+            u.append('    }')
+        u.append('//@at after["(a.0).0 = [%s];"]' % hi_list)
+        u.append('    proof {')
+        u.append('        let lo = scratch@.subrange(0, %d); let hi = scratch@.subrange(%d, %d);' % (n, n, n2))
+        u.append('        assert(lo + hi =~= scratch@);')
+        u.append('        val_cat(lo, hi, %d, %d);' % (n, n))
+        u.append('        val_frame(scratch@, lo, %d);' % n)
+        u.append('        assert(forall|l: int| 0 <= l < %d ==> a.0.0@[l] == hi[l]);' % n)
+        u.append('        val_frame(a.0.0@, hi, %d);' % n)
+        u.append('        bpow_add(%d, %d);' % (n, n))
+        u.append('        let R = bpow(%d); let vh = val(a.0.0@, %d);' % (n, n))
+        u.append('        let rr = vh + (if carry2 != 0 { R } else { 0 });')
+        u.append('        assert(rr * R == A * Bv + (m as nat) * PP) by(nonlinear_arith)')
+        u.append('            requires (val(lo, %d) + R * vh) as int - val(lo, %d) as int + carry2 as int * ((R * R) as int) == (A * Bv) as int + m * (PP as int),' % (n, n))
+        u.append('                rr == vh + (if carry2 != 0 { R } else { 0 }), carry2 <= 1, m >= 0;')
+        u.append('        lemma_lt(rr, A, PP, Bv, m as nat, R);')
+        u.append('        lemma_rel_from_witness(rr, R, A * Bv, m as nat, PP);')
+        u.append('        if rr >= PP { lemma_rel_shift(rr, A * Bv, PP, R); }')
+        u.append('        val_bound(a.0.0@, %d);' % n)
+        u.append('    }')
+        u.append('//@at fn.end')
+        u.append('    proof { val_bound(a.0.0@, %d); }' % n)
+        u.append('//@end')
+        txt = "\n".join(u)
+        # ghost declarations used above
+        txt = txt.replace("let ghost mut cc: int = 0;", "let ghost mut cc: int = 0; let ghost mut cprev_row: Seq<u64> = Seq::empty(); let ghost mut c2in: int = 0; let ghost mut tq: int = 0;")
+        return txt
     mul_units = ""
     want_mul = os.environ.get("DERIVE_MUL_MAX_N", "2")
-    if uses_scratch and n <= int(want_mul):
-        mul_units = mul_unit_scratch("mul_assign", "scratch", "tmp", False)
+    if uses_scratch and n <= int(os.environ.get("DERIVE_SCRATCH_MAX_N", "3")):
+        mul_units = mul_unit_scratch_replay("mul_assign")
     if not uses_scratch and n <= int(os.environ.get("DERIVE_NOCARRY_MAX_N", "12")):
         mul_units = mul_unit_nocarry("mul_assign")
     tpl = open(os.path.join(V, "contracts/c01_derive.vxt")).read()
@@ -239,7 +402,7 @@ fn mac_with_carry_o(a: u64, b: u64, c: u64, carry: &mut u64) -> (r: u64)
     rep = {
         "{KEY}": key, "{NP1}": str(n + 1), "{N}": str(n), "{GENFILE}": gen_rs, "{MODLIT}": lit(pl), "{INV}": "%du64" % inv, "{R2LIT}": lit(r2), "{P0}": "%d" % pl[0],
         "{SPARE}": "true" if spare else "false", "{NOCARRY}": "true" if nocarry else "false",
-        "{UNFOLD_LEMMA}": unfold_lemma, "{DIST_LEMMA}": (dist_lemma if (mul_units and uses_scratch) else "// (no multiplication unit at this grid point: lemma_dist omitted)"), "{MODPLAIN}": str(modulus), "{MODNAT}": "%dnat" % modulus, "{MODINT}": "%dint" % modulus, "{RNAT}": "%dnat" % R,
+        "{UNFOLD_LEMMA}": unfold_lemma, "{DIST_LEMMA}": (dist_lemma if False else "// (no multiplication unit at this grid point: lemma_dist omitted)"), "{MODPLAIN}": str(modulus), "{MODNAT}": "%dnat" % modulus, "{MODINT}": "%dint" % modulus, "{RNAT}": "%dnat" % R,
         "{UNFOLD_A}": "lemma_unfold(a.0.0@);", "{COPY_HI_SCRATCH}": copy_hi.replace("r[", "scratch[") if uses_scratch else copy_hi,
         "{COPY_HI_R}": "(a.0).0 = [" + ", ".join("r[%d]" % (n + i) for i in range(n)) + "];",
         "{AARGS}": ", ".join("a.0.0@[%d] as nat" % i for i in range(n)), "{BARGS}": ", ".join("b.0.0@[%d] as nat" % i for i in range(n)),
